@@ -175,6 +175,12 @@ func c01Docs(tier string) []c01Doc {
 		"---@class A\n---@field x A\n---@type A", "---@type A | B | \"s\"", "---|", "---| \"r\" # c"} {
 		add(l+"\nlocal v = {}\nlocal w = v[1]\nprint(v.x, w, v[\"k\"])\n", "annotation block above a declaration")
 	}
+	// very long names (the fuzzy matcher of workspace/symbol works on fixed-size tables): ASCII, and names whose
+	// byte length exceeds their length in characters
+	for _, nm := range []string{strings.Repeat("a", 126), strings.Repeat("a", 127), strings.Repeat("a", 128), strings.Repeat("a", 300),
+		"k" + strings.Repeat("名", 42), "k" + strings.Repeat("名", 60), "k" + strings.Repeat("名", 126), "k" + strings.Repeat("é", 100), "k" + strings.Repeat("😀", 40)} {
+		add("gtab = {}\ngtab[\""+nm+"\"] = 1\ngtab."+strings.Repeat("b", 130)+" = 2\nfunction gtab.f"+strings.Repeat("c", 140)+"() end\n", "very long member names")
+	}
 	// function-type aliases (also chained) declared in ANOTHER file than the one that uses them
 	for _, m := range []string{
 		"---@type Handler\nlocal h = nil\nlocal r = h(1)\nprint(r)\n",
